@@ -1241,3 +1241,167 @@ def check_recursive_memo(ctx, rep, funcs, rule=RULE + '.recmemo'):
                          'the incomplete set of a node in progress becomes part of the memoised result of another node; a later {g}(c) for a node c of the cycle returns that incomplete set '
                          '(only the node of the outermost call is complete)'.format(D=D, p=p, g=g.name))
     return n
+
+
+# ---- W10: a fold or a saturation that silently stops early ---------------------------------------------------------------
+
+def _reads_after(f, loop, names):
+    """names among `names` that are read after the loop (textually later in the function, or in a later iteration of an
+    enclosing loop, or by a nested function)"""
+    fx_nodes = list(walk_no_nested(f.node))
+    inside = {id(x) for x in ast.walk(loop)}
+    end = getattr(loop, 'end_lineno', loop.lineno)
+    out = set()
+    enclosing = [l for l in fx_nodes if isinstance(l, (ast.For, ast.While)) and l is not loop and any(x is loop for x in ast.walk(l))]
+    for x in ast.walk(f.node):
+        if isinstance(x, ast.Name) and isinstance(x.ctx, ast.Load) and x.id in names and id(x) not in inside:
+            if x.lineno > end or any(any(y is x for y in ast.walk(l)) for l in enclosing):
+                out.add(x.id)
+    return out
+
+
+def check_abandoned(ctx, rep, funcs, rule=RULE + '.W10'):
+    """A loop that accumulates over the elements of an unordered collection, or over a worklist, and has an exit
+         if <condition on the current element>: break
+    that does nothing else, in a loop without an else clause, whose current element is not looked at afterwards: after the
+    loop nothing tells this exit from exhaustion, so the accumulated containers silently cover only the elements that
+    happened to come first (hash order / pop order).  A search that stops at a target (`if x == target: break`), a break
+    after the contribution of the element, or an exit that records something, is not this pattern."""
+    from .order import _is_unordered
+    n = 0
+    for f in funcs:
+        wls = {id(w.loop): w for w in find_worklist_loops(ctx, f)}
+        for loop in walk_no_nested(f.node):
+            if not isinstance(loop, (ast.For, ast.While)) or loop.orelse:
+                continue
+            wl = wls.get(id(loop))
+            if wl is not None:
+                elems = set()
+                for st, var in wl.pops:
+                    if var is not None:
+                        elems |= {x.id for x in ast.walk(var) if isinstance(x, ast.Name)}
+                kind = 'the worklist {}'.format(wl.wl)
+            elif isinstance(loop, ast.For) and not is_count_loop(loop):
+                try:
+                    unordered = _is_unordered(ctx, f, loop.iter)
+                    if not unordered and isinstance(loop.iter, ast.Name):
+                        # an element popped from a list of sets:  Q1 = todo.pop()  with  todo = [Q0], Q0: Set[State]
+                        from ..types import members, elem_type
+                        for d in _single_def(f, loop.iter.id):
+                            v = d.value
+                            if isinstance(v, ast.Call) and isinstance(v.func, ast.Attribute) and v.func.attr in ('pop', 'popleft'):
+                                tw = ctx.env(f).type_of(v.func.value)
+                                for m in members(tw) if tw is not None else []:
+                                    if m[0] in ('list', 'set', 'frozenset') and len(m) > 1 and m[1] is not None and any(x[0] in ('set', 'frozenset') for x in members(m[1])):
+                                        unordered = True
+                except Exception:
+                    unordered = False
+                if not unordered:
+                    continue
+                elems = {x.id for x in ast.walk(loop.target) if isinstance(x, ast.Name)}
+                kind = 'the set {}'.format(u(loop.iter))
+            else:
+                continue
+            if not elems:
+                continue
+            from .order import _derived
+            elems = _derived(loop.body, elems)
+            # containers grown in the loop body
+            grown = set()
+            for st in _loop_stmts(loop):
+                for c in ast.walk(st) if not isinstance(st, (ast.For, ast.While, ast.If, ast.With, ast.Try)) else []:
+                    if isinstance(c, ast.Call) and isinstance(c.func, ast.Attribute) and c.func.attr in ('add', 'append', 'update', 'extend', 'insert', 'setdefault'):
+                        b = c.func.value
+                        while isinstance(b, (ast.Subscript, ast.Attribute, ast.Call)):
+                            b = b.value if not isinstance(b, ast.Call) else b.func
+                        if isinstance(b, ast.Name):
+                            grown.add(b.id)
+                if isinstance(st, ast.AugAssign):
+                    b = st.target
+                    while isinstance(b, (ast.Subscript, ast.Attribute)):
+                        b = b.value
+                    if isinstance(b, ast.Name):
+                        grown.add(b.id)
+                if isinstance(st, ast.Assign):
+                    for t in st.targets:
+                        if isinstance(t, ast.Subscript):
+                            b = t
+                            while isinstance(b, (ast.Subscript, ast.Attribute)):
+                                b = b.value
+                            if isinstance(b, ast.Name):
+                                grown.add(b.id)
+                        elif isinstance(t, ast.Name) and t.id in names_in(st.value) and isinstance(st.value, (ast.BinOp, ast.Call)):
+                            grown.add(t.id)          # result = result | Q1
+            if wl is not None:
+                grown.discard(wl.wl)
+            grown -= elems
+            if not grown:
+                continue
+            used_after = _reads_after(f, loop, grown)
+            if not used_after:
+                continue
+            guard_names = set()
+            for c in loop_conj(loop):
+                guard_names |= names_in(c)
+            for brk in _own_breaks(loop):
+                # the `if` whose whole body is this break
+                holder = None
+                for st in _loop_stmts(loop):
+                    if isinstance(st, ast.If) and not st.orelse and len(st.body) == 1 and st.body[0] is brk:
+                        holder = st
+                if holder is None:
+                    continue
+                cond = holder.test
+                if not (names_in(cond) & elems):
+                    continue           # not a condition on the current element (emptiness test, counter bound, flag)
+                # a search for a target: equality of (a part of) the element with a loop-invariant value
+                target_search = False
+                for c in ast.walk(cond):
+                    if isinstance(c, ast.Compare) and len(c.ops) == 1 and isinstance(c.ops[0], (ast.Eq, ast.Is)):
+                        sides = [c.left, c.comparators[0]]
+                        if any(names_in(s) & elems for s in sides) and any(not (names_in(s) & elems) and names_in(s) for s in sides):
+                            target_search = True
+                if target_search:
+                    continue
+                if _reads_after(f, loop, elems):
+                    continue           # the element at which the loop stopped is looked at afterwards
+                # something was contributed on the way to the break in this very iteration?  then the break follows the contribution
+                fx = ctx.facts(f)
+                cfg = fx.cfg
+                nb = cfg.n_of(brk)
+                contributed_before = False
+                for st in _loop_stmts(loop):
+                    if st is holder or isinstance(st, (ast.If, ast.For, ast.While)):
+                        continue
+                    touches = any(isinstance(c, ast.Call) and isinstance(c.func, ast.Attribute) and c.func.attr in ('add', 'append', 'update', 'extend', 'insert') and names_in(c.func.value) & used_after
+                                  for c in ast.walk(st)) or (isinstance(st, ast.AugAssign) and names_in(st.target) & used_after) \
+                        or (isinstance(st, ast.Assign) and any(isinstance(t, ast.Subscript) and names_in(t.value) & used_after for t in st.targets)) \
+                        or (isinstance(st, ast.Assign) and any(isinstance(t, ast.Name) and t.id in used_after and t.id in names_in(st.value) for t in st.targets))
+                    if not touches:
+                        continue
+                    try:
+                        ns = cfg.n_of(st)
+                    except Exception:
+                        continue
+                    # on a path from the loop head to the break inside one iteration
+                    if st.lineno < brk.lineno and nb in cfg.reachable(ns) and _same_iteration(loop, st, brk):
+                        contributed_before = True
+                n += 1
+                if contributed_before:
+                    rep.holds(rule, f, brk, 'the exit follows the contribution of the current element')
+                else:
+                    rep.violates(rule, f, brk, 'the loop over {} is left by `if {}: break` before the current element contributes, records nothing and has no else clause, and {} (grown inside the loop) {} used afterwards as if the loop had run to the end: the remaining elements are silently dropped, which ones depends on the iteration order (`continue` was meant)'.format(
+                        kind, u(cond), ', '.join(sorted(used_after)), 'is' if len(used_after) == 1 else 'are'))
+    return n
+
+
+def _same_iteration(loop, a, b):
+    """statement a lies before b on a straight path of one iteration: a is not inside a nested loop that b is outside of"""
+    for l in ast.walk(loop):
+        if l is loop or not isinstance(l, (ast.For, ast.While)):
+            continue
+        ina = any(x is a for x in ast.walk(l))
+        inb = any(x is b for x in ast.walk(l))
+        if ina and not inb:
+            return False
+    return True
